@@ -707,6 +707,13 @@ func (r *Runner) runPar(ctx context.Context, st *Stack, b *Base, op Op) {
 		r.Ctl.Done(o.ID)
 	}
 	if op.Gate {
+		r.Ctl.OnDoneWhileParked = func(rid, site string) {
+			r.Log.Emit(Ev{"ev": "AnsweredWhileParked", "r": rid, "site": site})
+			if ev, err := r.Export(ctx, st, b); err == nil {
+				ev["r"] = "while-parked:" + rid
+				r.Log.Emit(ev)
+			}
+		}
 		r.Ctl.StartFn = func(rid string) { run(byID[rid]) }
 		r.Ctl.StartGating(ids, lazy)
 	}
